@@ -20,6 +20,8 @@ fn layout(attrs: &[String], salt: &str, indent: &str) -> String {
         rng.shuffle(&mut a);
     }
     let mut out = String::new();
+    // attributes of other tools may sit between deserr's
+    let noise = rng.chance(1, 3);
     match rng.below(4) {
         0 | 1 => {
             let _ = writeln!(out, "{indent}#[deserr({})]", a.join(", "));
@@ -27,11 +29,20 @@ fn layout(attrs: &[String], salt: &str, indent: &str) -> String {
         2 => {
             for x in &a {
                 let _ = writeln!(out, "{indent}#[deserr({x})]");
+                if noise {
+                    let _ = writeln!(out, "{indent}#[doc = \"between\"]");
+                }
             }
         }
         _ => {
             let cut = 1 + rng.below(a.len());
+            if noise {
+                let _ = writeln!(out, "{indent}#[allow(dead_code)]");
+            }
             let _ = writeln!(out, "{indent}#[deserr({})]", a[..cut].join(", "));
+            if noise {
+                let _ = writeln!(out, "{indent}/// a doc comment between two deserr attributes");
+            }
             if cut < a.len() {
                 let _ = writeln!(out, "{indent}#[deserr({})]", a[cut..].join(", "));
             }
